@@ -389,7 +389,7 @@ func replaySaved(t *testing.T, prop string) {
 			continue
 		}
 		c.eval(true, hash64(e.Name()), "saved-replay")
-		c.sample(func() any { return e.Name() })
+		c.sample(func() any { return map[string]any{"replay": e.Name(), "kind": rf.Kind, "case": rf.Case} })
 		if msg := fn(rf.Case); msg != "" {
 			violation(t, prop, rf.Kind, rf.Case, "saved replay "+e.Name()+" fails again:\n"+msg)
 		}
